@@ -4,6 +4,7 @@ import sys
 import traceback
 
 from . import consts as K
+from . import effects as E
 from . import facts as F
 from .report import Report
 
@@ -45,8 +46,363 @@ def check_C14(tier):
     )
 
 
+# ---------------------------------------------------------------------------
+def check_C15(tier):
+    rep = Report("C15", tier)
+    non_alloc = ["default"] if tier == "quick" else F.NON_ALLOC_CONFIGS
+    alloc_cfgs = ["compact_alloc"] if tier == "quick" else ["alloc", "compact_alloc", "nostd_alloc", "nostd_compact_alloc"]
+    fx = F.build_many([(c, "rel") for c in non_alloc + alloc_cfgs])
+    fixture = E.fixture_view(F.build_fixture("rel"))
+    roots = ["root_f32", "root_f64"]
+    R1 = "R15.1:no instance of crate alloc / allocator entry point is reachable (monomorphic call graph) from parse_float::<f32|f64>"
+    R2 = "R15.2:no body, signature or field type of the library mentions an item of crate alloc"
+    R3 = "R15.3:no indirect (fn-pointer / dyn) call on the reachable graph, so R15.1 is complete"
+    R4 = "R15.4:the crate does not link `alloc` (no `extern crate alloc`)"
+    n_inst = 0
+    for cfg in non_alloc:
+        v = E.lib_view(fx[(cfg, "rel")])
+        obs = []
+        h, n = E.r_mono_alloc(v, roots); n_inst += n
+        obs += E.hits_to_obs("R15.1", R1, h, n)
+        rep.floor("%s: instances reachable from parse_float" % cfg, n, 150)
+        h, n = E.r_poly_alloc_mention(v)
+        obs += E.hits_to_obs("R15.2", R2, h, n)
+        rep.floor("%s: type/def mentions scanned" % cfg, n, 400)
+        reach = E.mono_reach(v.mono, [v.mono_roots[r] for r in roots])
+        h = E.indirect_calls(v.mono, reach)
+        obs += E.hits_to_obs("R15.3", R3, h, len(reach))
+        h, n = E.r_extern_crate_alloc(v)
+        obs += E.hits_to_obs("R15.4", R4, h, n)
+        st = {x["path"]: x for x in v.structs}
+        rep.note("%s: struct field types: %s" % (cfg, {k: [f["ty"] for f in x["fields"]] for k, x in st.items() if "Vec" in k or "Bigint" in k}))
+        rep.add(cfg, obs)
+    # the same rules must see heap use where it exists: alloc configurations + fixture
+    ctl = []
+    for cfg in alloc_cfgs:
+        v = E.lib_view(fx[(cfg, "rel")])
+        h1, _ = E.r_mono_alloc(v, roots)
+        h2, _ = E.r_poly_alloc_mention(v)
+        ctl.append(K.Ob("control R15.1 sees Vec in `%s`" % cfg, len(h1) > 0, "%d alloc instances reachable" % len(h1),
+                        "CTL:with the alloc feature the reachability rule must report the heap vector"))
+        ctl.append(K.Ob("control R15.2 sees Vec in `%s`" % cfg, len(h2) > 0, "%d alloc mentions" % len(h2),
+                        "CTL:with the alloc feature the mention rule must report the heap vector"))
+    h, _ = E.r_mono_alloc(fixture, ["root_alloc"])
+    ctl.append(E.control_obs("R15.1", R1, [E.Hit("root_alloc", x.what) for x in h], "root_alloc"))
+    h, _ = E.r_poly_alloc_mention(fixture)
+    for fn in ("ctl_alloc_vec", "ctl_alloc_box", "ctl_alloc_format"):
+        ctl.append(E.control_obs("R15.2", R2, h, fn))
+    reach = E.mono_reach(fixture.mono, [fixture.mono_roots["root_dyn"]])
+    ctl.append(E.control_obs("R15.3", R3, E.indirect_calls(fixture.mono, reach), "root_dyn"))
+    rep.add("controls", ctl)
+    rep.analysed = {"non_alloc_configurations": non_alloc, "alloc_configurations_as_controls": alloc_cfgs,
+                    "roots": roots, "mono_instances_reached": n_inst}
+    return rep.finish(
+        "other",
+        "Effect rule over the resolved program: in every configuration without `alloc`, (1) the monomorphic call graph from "
+        "parse_float::<f32> and ::<f64> (all callees resolved through rustc's Instance::try_resolve, drop glue and fn items "
+        "passed as values included, panic entry points not followed) contains no instance defined in crate `alloc` and no "
+        "allocator entry point; (2) no body, signature or field type anywhere in the library mentions a def-id of crate `alloc`, "
+        "which covers every iterator type and every rarely taken path at once; (3) no fn-pointer/dyn call exists on that graph; "
+        "(4) no `extern crate alloc`. (The field types of the big-integer storage are listed in notes, not asserted: rule 2 already covers them.) Controls: the same rules report "
+        "the heap vector in the alloc configurations and Vec/Box/format! in the fixture crate on every run.",
+        [A_TOOL, A_TARGET, "panic machinery (core::panicking::*, std::panicking::*) is a leaf: panics do not occur for valid input (C04)",
+         "std's precompiled non-generic functions ship no MIR; the only ones reachable are powf (compact) and the panic machinery"],
+    )
+
+
+def check_C16(tier):
+    rep = Report("C16", tier)
+    cl = ["default"] if tier == "quick" else F.ALL_CONFIGS
+    fx = F.build_many([(c, "rel") for c in cl])
+    fixture = E.fixture_view(F.build_fixture("rel"))
+    rules = [
+        ("R16.1", "no static mut, no static with interior mutability, no thread-local, and no body touches one", E.r_mutable_globals, ["ctl_static_mut", "COUNTER", "TL"]),
+        ("R16.2", "no body, signature or field type mentions Cell/UnsafeCell/atomics/locks", E.r_interior_mut, ["ctl_cell_local", "ctl_atomic"]),
+        ("R16.4", "no pointer<->integer cast, pointer transmute, raw-pointer comparison or address-observing call", E.r_address_dependence, ["ctl_ptr_to_int", "ctl_ptr_cmp", "ctl_ptr_transmute"]),
+        ("R16.5", "on a generic iterator only sequence-determined methods are called (no size_hint/len/advance_by, no type-dependent query)", E.r_iterator_discipline, ["ctl_size_hint", "ctl_type_dispatch", "ctl_size_of"]),
+        ("R16.7", "no assume_init / mem::uninitialized / mem::zeroed", E.r_uninit_read, ["ctl_assume_init"]),
+        ("R16.8", "inline asm only inside module fpu", E.r_asm_confined, ["ctl_asm"]),
+    ]
+    for cfg in cl:
+        f = fx[(cfg, "rel")]
+        v = E.lib_view(f)
+        obs = []
+        for rid, text, fn, _ctl in rules:
+            h, n = fn(v)
+            obs += E.hits_to_obs(rid, rid + ":" + text, h, n)
+        # R16.3 foreign callees
+        feats = F.cfg_features(cfg)
+
+        def allow(m, feats=feats):
+            if E.nz(m["path"]) in (E.nz("std::f32::<impl f32>::powf"), E.nz("std::f64::<impl f64>::powf")):
+                return True
+            if "alloc" in feats and (m["krate"] == "alloc" or m["krate"] == "std" and "alloc" in m["name"]):
+                return True
+            return False
+        h, n = E.foreign_instances(v, ["root_f32", "root_f64", "root_chain_f64", "root_filter_f64"], allow)
+        obs += E.hits_to_obs("R16.3", "R16.3:every reachable instance is defined in core or the library (allow-list: powf; Vec with alloc); nothing else can carry state", h, n)
+        rep.floor("%s: mono instances reached" % cfg, n, 150)
+        # R16.9 iterator-shape independence
+        base = E.crate_local_shape(v, "root_f64")
+        for other in ("root_chain_f64", "root_filter_f64"):
+            sh = E.crate_local_shape(v, other)
+            diff = []
+            for k in sorted(set(base) | set(sh)):
+                if base.get(k) != sh.get(k):
+                    diff.append("%s: slice=%s other=%s" % (k, sorted(base.get(k, [])), sorted(sh.get(k, []))))
+            obs.append(K.Ob("R16.9: %s vs root_f64" % other, not diff, "; ".join(diff)[:600] or "%d crate functions, identical callee sets" % len(base),
+                            "R16.9:for Chain/Filter iterators the parser reaches the same library functions with the same library callees and the same Iterator/Clone methods as for slice iterators",
+                            "harness/roots: " + other))
+        rep.floor("%s: crate functions in shape" % cfg, len(base), 40)
+        rep.add(cfg, obs)
+    ctl = []
+    for rid, text, fn, ctls in rules:
+        h, _ = fn(fixture)
+        for c in ctls:
+            ctl.append(E.control_obs(rid, text, h, c))
+    rep.add("controls", ctl)
+    rep.note("E4 part (every read through a StackVec pointer is below `length`; shl_limbs/resize initialise what they expose) is reported under C13/C08")
+    rep.analysed = {"configurations": cl}
+    return rep.finish(
+        "other",
+        "Effect/ownership rules decided on the type-checked program of each configuration: no mutable or interior-mutable "
+        "global state is defined, mentioned or reachable; no operation observes an address; generic iterator values are only "
+        "advanced/cloned/counted (never asked for size_hint, length or type identity), and Chain/Filter instantiations reach "
+        "exactly the library functions and callees the slice instantiation reaches; no uninitialised-value read API; inline "
+        "asm confined to fpu. Together: the result is a function of the yielded byte sequences and the exponent, and calls "
+        "share no state (thread safety follows). Each zero-count rule fires on its fixture control on every run.",
+        [A_TOOL, A_TARGET, "a `well-behaved` iterator yields the same sequence from a clone and has no side effects in next/clone",
+         "reads below StackVec.length only: decided by E4 (C13), not here"],
+    )
+
+# ---------------------------------------------------------------------------
+# constant-rule parts shared by several properties
+# ---------------------------------------------------------------------------
+def _k_float(f, fty):
+    obs = []
+    obs += K.format_rules(f, fty)
+    obs += K.fastpath_rules(f, fty)
+    obs += K.tie_window_rules(f, fty)
+    obs += K.cutoff_rules(f, fty)
+    o, _need = K.max_digits_rules(f, fty)
+    obs += o
+    return obs
+
+
+def _check_rounding(pid, fty, tier):
+    """C01 / C02: constants + (C02) single-rounding structure. E4 parts are appended by absint when available."""
+    rep = Report(pid, tier)
+    cl = cfgs(tier)
+    fx = F.build_many([(c, "rel") for c in cl])
+    for cfg in cl:
+        f = fx[(cfg, "rel")]
+        obs = _k_float(f, fty)
+        rep.floor("%s: K-rules for %s" % (cfg, fty), len(obs), 20)
+        if fty == "f32":
+            v = E.lib_view(f)
+            h, n = E.r_single_rounding(v, "root_f32")
+            obs += E.hits_to_obs("S", "S:no f64-typed local, no float-to-float cast and no f64-instantiated function is reachable from parse_float::<f32> (the f32 result is rounded once)", h, n)
+            rep.floor("%s: instances scanned for S-rule" % cfg, n, 100)
+        # tables feed the same result: reuse C14 rules as obligations of this property too
+        obs += K.table_rules(f)
+        rep.add(cfg, obs)
+    if fty == "f32":
+        fixture = E.fixture_view(F.build_fixture("rel"))
+        h, _ = E.r_poly_double_round(fixture)
+        rep.add("controls", [E.control_obs("S", "float-to-float cast", h, "ctl_double_round")])
+    rep.analysed = {"configurations": cl, "float": fty}
+    rep.note("NOT decided: that the Eisel-Lemire / Bellerophon / big-integer algorithms round correctly. Decided: the per-format constants equal their IEEE-derived definitions (equalities) or lie on the necessary side of their bound (one-sided), every table entry equals its definition" + ("; single-rounding structure" if fty == "f32" else ""))
+    return rep.finish(
+        "other",
+        "Static necessary conditions of correct rounding for %s: (K) every Float associated constant as evaluated by rustc equals its "
+        "definition from the compiler's own MANTISSA_DIGITS/MAX_EXP (masks, biases, INFINITE_POWER) or satisfies the one-sided bound whose "
+        "violation must change some result (fast-path limits, tie window, decimal cut-offs, MAX_DIGITS >= longest midpoint expansion, computed "
+        "exactly); (T) every power-table entry equals its definition%s. The numerical behaviour itself (nearest-even for every input) is not decided "
+        "by this check." % (fty, "; (S) the f32 instantiation contains no f64 value, so the result cannot be an f64 rounded a second time" if fty == "f32" else ""),
+        [A_TOOL, A_TARGET, "one-sided rules are armed only in the direction that is a necessary condition"],
+    )
+
+
+def check_C01(tier):
+    return _check_rounding("C01", "f64", tier)
+
+
+def check_C02(tier):
+    return _check_rounding("C02", "f32", tier)
+
+
+def check_C17(tier):
+    rep = Report("C17", tier)
+    cl = ["default"] if tier == "quick" else F.ALL_CONFIGS
+    fx = F.build_many([(c, "rel") for c in cl])
+    for cfg in cl:
+        f = fx[(cfg, "rel")]
+        obs = K.format_rules(f, "f32") + K.format_rules(f, "f64")
+        rep.floor("%s: format constants" % cfg, len(obs), 22)
+        rep.add(cfg, obs)
+    rep.analysed = {"configurations": cl}
+    rep.note("helper bodies (is_denormal/exponent/mantissa/extended_to_float/b/bh) are decided by the bit-level part when present; see coverage.bitlevel")
+    return rep.finish(
+        "other",
+        "All mask/bias/size constants of both Float impls, as evaluated by rustc, equal the IEEE-754 definitions derived from the compiler's "
+        "own MANTISSA_DIGITS and MAX_EXP (11 equalities per format), in every configuration.",
+        [A_TOOL, A_TARGET],
+    )
+
+
+def check_C06(tier):
+    rep = Report("C06", tier)
+    cl = ["default"] if tier == "quick" else F.ALL_CONFIGS
+    fx = F.build_many([(c, "rel") for c in cl])
+    need = {}
+    for cfg in cl:
+        f = fx[(cfg, "rel")]
+        obs = []
+        for fty in ("f32", "f64"):
+            o, n = K.max_digits_rules(f, fty)
+            need[fty] = n
+            obs += o
+        obs += K.capacity_rules(f)
+        rep.add(cfg, obs)
+    rep.analysed = {"configurations": cl, "longest_midpoint_digits": need}
+    rep.note("NOT decided: rounding of the truncated value. Decided: MAX_DIGITS is at least the longest exact decimal expansion of any midpoint between adjacent floats (computed by big-integer enumeration over all binades), and retaining that many digits fits the big-integer capacity")
+    return rep.finish(
+        "other",
+        "Necessary condition of long-input rounding: MAX_DIGITS >= D_mid(F), where D_mid is computed exactly (768 for f64, 113 for f32 on IEEE parameters "
+        "taken from the compiler); with fewer retained digits an exact tie is replaced by prefix||1 < tie and rounds the wrong way. Plus the capacity "
+        "formula of DESIGN appendix B evaluated on the extracted constants.",
+        [A_TOOL, A_TARGET],
+    )
+
+
+def check_C07(tier):
+    rep = Report("C07", tier)
+    cl = cfgs(tier)
+    fx = F.build_many([(c, "rel") for c in cl])
+    for cfg in cl:
+        f = fx[(cfg, "rel")]
+        obs = []
+        for fty in ("f32", "f64"):
+            obs += K.cutoff_rules(f, fty)
+        rep.floor("%s: cut-off rules" % cfg, len(obs), 8)
+        rep.add(cfg, obs)
+    rep.analysed = {"configurations": cl}
+    return rep.finish(
+        "other",
+        "Cut-off rules: the decimal-exponent early-outs of both moderate stages imply the value they return (2^64 * 10^(S-1) is at most half the "
+        "smallest subnormal; 10^(L+1) is at least 2^(bias+1); same for the Bellerophon table range), and lie inside the power tables.",
+        [A_TOOL, A_TARGET],
+    )
+
+
+def check_C11(tier):
+    rep = Report("C11", tier)
+    cl = cfgs(tier)
+    fx = F.build_many([(c, "rel") for c in cl])
+    for cfg in cl:
+        f = fx[(cfg, "rel")]
+        obs = []
+        for fty in ("f32", "f64"):
+            obs += K.tie_window_rules(f, fty)
+            obs += K.cutoff_rules(f, fty)
+        obs += K.table_rules(f)
+        rep.add(cfg, obs)
+    rep.analysed = {"configurations": cl}
+    return rep.finish(
+        "other",
+        "Constant part of the middle stage: tie-window bounds (one-sided), table coverage of [SMALLEST,LARGEST]_POWER_OF_TEN, every table significand "
+        "equals its definition and has its top bit set. Whether a definite answer is the correctly rounded one is NOT decided.",
+        [A_TOOL, A_TARGET],
+    )
+
+
+def check_C18(tier):
+    rep = Report("C18", tier)
+    cl = ["default"] if tier == "quick" else F.ALL_CONFIGS
+    fx = F.build_many([(c, "rel") for c in cl])
+    for cfg in cl:
+        f = fx[(cfg, "rel")]
+        obs = []
+        for fty in ("f32", "f64"):
+            keep = ("CARRY_MASK", "HIDDEN_BIT_MASK", "MANTISSA_MASK", "INFINITE_POWER", "MANTISSA_SIZE")
+            obs += [o for o in K.format_rules(f, fty) if o.key.split("::")[1] in keep]
+        rep.floor("%s: rounding constants" % cfg, len(obs), 10)
+        rep.add(cfg, obs)
+    rep.analysed = {"configurations": cl}
+    return rep.finish(
+        "other",
+        "Constants the rounding primitive consumes (CARRY_MASK, HIDDEN_BIT_MASK, MANTISSA_MASK, INFINITE_POWER, MANTISSA_SIZE) equal their definitions for both formats.",
+        [A_TOOL, A_TARGET],
+    )
+
+
+def check_C12(tier):
+    rep = Report("C12", tier)
+    cl = cfgs(tier)
+    fx = F.build_many([(c, "rel") for c in cl])
+    fixture = E.fixture_view(F.build_fixture("rel"))
+    R = "R12.1:the Option/Result returned by a library function is never dropped unread (consumed by ?, unwrap, a match, or returned)"
+    for cfg in cl:
+        f = fx[(cfg, "rel")]
+        v = E.lib_view(f)
+        h, n = E.r_dropped_failure(v)
+        obs = E.hits_to_obs("R12.1", R, h, n)
+        rep.floor("%s: fallible call sites" % cfg, n, 40)
+        obs += [o for o in K.table_rules(f) if o.key.startswith(("LARGE_POW5", "SMALL_INT_POW5"))]
+        rep.add(cfg, obs)
+    h, _ = E.r_dropped_failure(fixture)
+    ctl = [E.control_obs("R12.1", R, h, "ctl_dropped_failure")]
+    hok = [x for x in h if x.fn == "ok_used_failure"]
+    ctl.append(K.Ob("control R12.1 silent on fixtures/bad::ok_used_failure", not hok, "%d hits" % len(hok), "CTL:the accepted idioms (?, unwrap, is_none) are not reported"))
+    rep.add("controls", ctl)
+    rep.analysed = {"configurations": cl}
+    return rep.finish(
+        "other",
+        "Failure discipline: every call to a library function returning Option/Result has its result read (MIR def-use), so a capacity failure "
+        "cannot be silently ignored; LARGE_POW5 = 5^LARGE_POW5_STEP and SMALL_INT_POW5 exact. Exactness of the carry chains is NOT decided here.",
+        [A_TOOL, A_TARGET],
+    )
+
+
+def check_C05(tier):
+    rep = Report("C05", tier)
+    cl = cfgs(tier)
+    fx = F.build_many([(c, "rel") for c in cl])
+    rep.add("cross-configuration", K.cross_config_rules({c: fx[(c, "rel")] for c in cl}))
+    for cfg in cl:
+        f = fx[(cfg, "rel")]
+        obs = K.table_rules(f)
+        for fty in ("f32", "f64"):
+            obs += K.cutoff_rules(f, fty)
+        if "compact" in cfg:
+            bp = f.consts["table_bellerophon::BASE10_POWERS"]
+            sint = [int(x) for x in bp["small_int"]["slice"]]
+            obs.append(K.Ob("BASE10_SMALL_INT_POWERS = 10^i", all(v == 10 ** i for i, v in enumerate(sint)), "%d entries" % len(sint),
+                            "X:compact integer powers equal the default configuration's SMALL_INT_POW10 definition (10^i)"))
+        rep.add(cfg, obs)
+    rep.analysed = {"configurations": cl}
+    rep.note("NOT decided: bit-equality of Eisel-Lemire vs Bellerophon, or of table look-ups vs powf. Decided: constants shared by name agree in all analysed configurations; each configuration-specific table meets the same definition-level contract")
+    return rep.finish(
+        "other",
+        "Sibling contracts across feature configurations: every constant with the same name evaluates to the same value in all analysed "
+        "configurations; the configuration-specific tables (Eisel-Lemire / small tables vs Bellerophon) each equal their definitions and their cut-offs "
+        "imply the same zero/infinity decisions.",
+        [A_TOOL, A_TARGET],
+    )
+
 CHECKS = {
+    "C01": check_C01,
+    "C02": check_C02,
+    "C05": check_C05,
+    "C06": check_C06,
+    "C07": check_C07,
+    "C11": check_C11,
+    "C12": check_C12,
     "C14": check_C14,
+    "C17": check_C17,
+    "C18": check_C18,
+    "C15": check_C15,
+    "C16": check_C16,
 }
 
 
